@@ -21,34 +21,47 @@ from props.c04 import canonj, canon
 
 META = {
     'level_text': 'Theorems for all well-formed nodes and all oracles: describe_lists_exported (the report lists exactly the '
-                  'exported (module, wire name) pairs, none twice, and exactly the exported modules), described_is_dispatched '
-                  '(datainfo / readonly / constant of an entry are those of the Param the dispatcher resolves for that name), '
-                  'flags_predict (+ _readonly / _writable), constant_reads, undescribed_unreachable (read / change / do / '
+                  'exported (module, wire name) pairs, none twice, and exactly the exported modules) + listsExactlyB_sound (the monitor '
+                  'accepts only such reports), described_is_dispatched / described_command_is_dispatched '
+                  '(datainfo / readonly / constant / "has an argument" of an entry are those of the Param / Command the dispatcher resolves for that name), '
+                  'flags_predict (+ _readonly / _writable), constant_reads, kind_honoured (a described command can not be changed / read / subscribed, '
+                  'a described parameter not executed), undescribed_unreachable (read / change / do / '
                   'activate => NoSuch..., no call, node unchanged, nothing subscribed) + undescribed_module_unreachable, '
+                  'command_datainfo_equiv (the payloads the described command datainfo accepts - none without `argument` - are exactly those for which '
+                  'the command function is called; all others are refused without a call), model_change_probe_ok / model_read_probe_ok / model_do_probe_ok '
+                  '(the probe specification the monitor applies to the implementation holds of the model), '
                   'describe_stable (any history), emits_importable / emits_importable_history (updates emitted by change AND read, '
-                  'along any history) and described_datainfo_equiv relative to the stated datatype-oracle laws, '
+                  'along any history) and described_datainfo_equiv relative to the datatype-oracle laws stated for the node\'s own datatypes (ImportLaw / AcceptLaw), '
                   'cache_valid + read_reply_importable (the cache only ever holds values the datatype produced, whatever module code '
                   'assigns; read replies and snapshots are importable), class_props_derived (interface class = highest SECoP base class of the class chain, features = direct Feature '
-                  'mixins; derived by the model from the MRO given as data).  Tied to secnode.py / params.py / dispatcher.py by a correspondence run (model report '
-                  '= real report) and report-vs-behaviour monitors on generated nodes and on the shipped configurations.',
+                  'mixins; derived by the model from the MRO given as data), auto_props_ignore_cfg / report_class_props / class_props_cfg_independent (Module.__init__ applies the '
+                  'configuration first and assigns implementation / interface_classes / features afterwards: for EVERY configuration the report states the interface class, '
+                  'features and implementation of the implementing class), cfg_prop_applied (all other declared module properties follow the configuration), table fact module_decls_auto.  '
+                  'Tied to secnode.py / params.py / modulebase.py / properties.py / dispatcher.py by correspondence runs (model report = real report, the module property lists DERIVED from '
+                  'class + configuration; model step = real step for every request of the sweep) and report-vs-behaviour monitors on generated nodes and on the shipped configurations.',
     'level_note': 'Trusted: Lean kernel + axioms; the order test of a LimitsType pair is classified with the limit checks (not '
-                  'expressible in the described tuple datainfo); the datatype layer is an oracle (C01-C03): emits_importable and '
-                  'described_datainfo_equiv are proved relative to explicit oracle laws and the corresponding facts are tested '
-                  'on the implementation with the real client datatypes; property lists (description, group, visibility, '
-                  'implementation, interface_classes, features) are data taken from the real objects; strict JSON of the report '
+                  'expressible in the described tuple datainfo); the datatype layer is an oracle (C01-C03): emits_importable, '
+                  'described_datainfo_equiv and command_datainfo_equiv are proved relative to explicit oracle laws (about the datatypes of the node) and the corresponding facts are tested '
+                  'on the implementation with the real client datatypes; property lists of ACCESSIBLES (description, group, visibility) are data taken from the real objects, '
+                  'those of MODULES are derived by the model from the declared properties of the class, class-level values and the configuration; strict JSON of the report '
                   'is checked on the implementation only.',
     'trusted': [
         'datatype oracle laws: a client datatype rebuilt from a datainfo accepts what the original accepts, and imports the '
-        'export of every validated value (C01-C03)',
-        'exportProperties() (which properties are non-default) is taken from the real objects as data',
-        'shipped configurations: driver calls are not observed there (only replies and subscriptions)',
+        'export of every validated value (C01-C03); the same for the argument datatype of a command',
+        'exportProperties() of parameters and commands (which properties are non-default) is taken from the real objects as data; '
+        'for modules the declared properties (name, external name, export flag, default) and the validated configuration values are data, the rest is derived',
+        'shipped configurations: driver calls are not observed there (only replies and subscriptions); they are probed only after the generated nodes showed no violation',
     ],
     'modelled_not_verified': [
-        'implementation (compared as data); the MRO itself (Python C3 linearisation) is data from the real class',
+        'the MRO itself (Python C3 linearisation) and the qualified class name are data from the real class',
+        'validation of a configured property value by the property\'s datatype (a refused value produces no node)',
         'main-unit substitution ($) — the datainfo is taken after configuration',
         'json.dumps of the report (strictness is tested on the implementation)',
     ],
-    'assumptions': ['Node.WF: distinct module names, distinct wire names per module, predefined names used for their kind'],
+    'assumptions': ['Node.WF: distinct module names, distinct wire names per module, predefined names used for their kind',
+                    'model_change_probe_ok: NoForeignReadOnly (datatypes, hooks and drivers do not use the error class ReadOnly for their own refusals)',
+                    'report_class_props: AutoDecls (the class declares implementation / interface_classes / features as exported properties under these names; '
+                    'proved for frappy\'s Module from the generated table)'],
 }
 
 PID = 'C06'
@@ -586,9 +599,11 @@ def evaluate(ctx, res, label, case, data, model, exch, judge):
 
 def run(ctx):
     res = Result()
-    res.rule = ('one evaluation = one node: describe twice around a sweep of change/read/do/activate requests over every '
+    res.rule = ('one evaluation = one node (generated classes + configuration incl. entries for module properties - also the automatic ones - '
+                'and for constant / range of parameters): describe twice around a sweep of change/read/do/activate requests over every '
                 'described and every undescribed name (attribute names, underscore variants, old names of renamed '
-                'accessibles, accessibles of unexported modules, unknown modules), client datatypes rebuilt from the report '
+                'accessibles, accessibles of unexported modules, unknown modules; do with no payload, empty JSON values, junk, valid and boundary arguments), '
+                'client datatypes rebuilt from the report '
                 'against the node on generated payloads, emitted values against the described datainfo; non-trivial = the '
                 'node has described, undescribed and read-only accessibles')
     big = ctx.tier == 'thorough' or ctx.escalated
